@@ -161,11 +161,19 @@ type readerSpec struct {
 	Cuts    []int `json:",omitempty"` // absolute stream offsets at which a Read stops short
 	Chunk   int   `json:",omitempty"` // max bytes per Read (0 = unlimited)
 	EOFData bool  `json:",omitempty"` // deliver the final bytes together with io.EOF
+	// FailAt >= 0 (stored +1 so that the zero value means "no failure"): the reader delivers exactly the
+	// first FailAt-1 bytes of the stream and from then on answers every Read with a non-EOF error
+	// (I/O error, reset connection, pipe closed with error). ErrWithData: the error already
+	// accompanies the Read that delivers the last of those bytes.
+	FailAt      int  `json:",omitempty"`
+	ErrWithData bool `json:",omitempty"`
 	Class   string
 }
 
 // sizeLimit: no record of the harness's dumps is anywhere near this; see vbinary.
 const sizeLimit = 1 << 16
+
+var errIO = errors.New("injected reader failure: connection reset")
 
 type splitReader struct {
 	data  []byte
@@ -178,10 +186,17 @@ func (r *splitReader) Read(p []byte) (int, error) {
 	if len(p) == 0 {
 		return 0, nil
 	}
+	limit := len(r.data)
+	if r.sp.FailAt > 0 {
+		limit = r.sp.FailAt - 1
+		if r.pos >= limit {
+			return 0, errIO
+		}
+	}
 	if r.pos == len(r.data) {
 		return 0, io.EOF
 	}
-	n := min(len(p), len(r.data)-r.pos)
+	n := min(len(p), limit-r.pos)
 	if r.sp.Chunk > 0 && n > r.sp.Chunk {
 		n = r.sp.Chunk
 	}
@@ -196,6 +211,9 @@ func (r *splitReader) Read(p []byte) (int, error) {
 	}
 	copy(p, r.data[r.pos:r.pos+n])
 	r.pos += n
+	if r.sp.FailAt > 0 && r.sp.ErrWithData && r.pos == limit {
+		return n, errIO
+	}
 	if r.sp.EOFData && r.pos == len(r.data) {
 		return n, io.EOF
 	}
@@ -446,6 +464,51 @@ func main() {
 			}
 			ig := j.Ignore[i]
 			rp := map[string]any{"job": j, "ignoreErrors": ig}
+			if j.Reader.FailAt > 0 {
+				// A failing reader is not a corrupted record: with ignoreErrors off and on alike,
+				// Restore must either report an error or have stored the whole dump. Whatever it
+				// stored must be objects of the dump, byte-identical and known to the metabase.
+				k := j.Reader.FailAt - 1
+				var bad []string
+				full := len(judgeIntact(d, restoreRes{Count: len(d.Recs), Blob: res.Blob, WC: res.WC, Meta: res.Meta})) == 0
+				cls := "error-reported"
+				switch {
+				case res.Err == "" && !full:
+					cls = "nil-error-with-missing-objects"
+					bad = append(bad, fmt.Sprintf("returned nil (restored %d, failed %d) but the shard does not hold the whole dump", res.Count, res.Fail))
+				case res.Err == "":
+					cls = "nil-error-everything-stored"
+					if res.Count != len(d.Recs) || res.Fail != 0 {
+						bad = append(bad, fmt.Sprintf("counts (%d,%d), want (%d,0)", res.Count, res.Fail, len(d.Recs)))
+					}
+				}
+				var got []record
+				for _, rc := range d.Recs {
+					if _, ok := stored(res)[rc.Addr]; ok {
+						got = append(got, rc)
+					}
+				}
+				for _, b := range compareSet(got, nil, res) {
+					bad = append(bad, "stored content: "+b)
+				}
+				if len(bad) > 0 {
+					fp := "failing-reader:" + cls
+					if cls != "nil-error-with-missing-objects" {
+						fp = "failing-reader:stored-content-or-counts-wrong"
+					}
+					r.Violation(fp, fmt.Sprintf("dump %s (%d bytes, %d objects), reader delivers %d bytes then fails (%+v), ignoreErrors=%v -> restored %d, failed %d, err %q: %v", d.C.Name, len(d.Bytes), len(d.Recs), k, j.Reader, ig, res.Count, res.Fail, res.Err, bad), rp)
+				}
+				classes["failing-reader/"+cls]++
+				r.Nontrivial(fmt.Sprintf("%d/%v/%v", j.Dump, j.Reader, ig))
+				onBoundary := k == len(d.Bytes)
+				for _, rc := range d.Recs {
+					onBoundary = onBoundary || k == rc.Off
+				}
+				if onBoundary && len(d.Recs) == 3 {
+					r.Sample(map[string]any{"dump": d.C.Name, "reader_fails_after_bytes": k, "on_record_boundary": true, "ignoreErrors": ig, "restored": res.Count, "err": res.Err})
+				}
+				continue
+			}
 			if j.CorrOff < 0 {
 				bad := judgeIntact(d, res)
 				cls := "exact"
@@ -572,6 +635,24 @@ func main() {
 			add(di, readerSpec{Class: "final-bytes-with-EOF", Chunk: k, EOFData: true}, -1, 0, both)
 		}
 	}
+	// failing reader: exactly k bytes, then a non-EOF error, for every k in [0, len]
+	for di, d := range dumps {
+		L := len(d.Bytes)
+		near := map[int]bool{}
+		for _, rc := range d.Recs {
+			for x := -4; x <= 8; x++ {
+				near[rc.Off+x] = true
+			}
+		}
+		for k := 0; k <= L; k++ {
+			add(di, readerSpec{Class: "failing-reader", FailAt: k + 1}, -1, 0, both)
+			add(di, readerSpec{Class: "failing-reader", FailAt: k + 1, ErrWithData: true}, -1, 0, both)
+			if near[k] || k >= L-8 { // chunked delivery around every record boundary and the tail
+				add(di, readerSpec{Class: "failing-reader", FailAt: k + 1, Chunk: 1}, -1, 0, both)
+				add(di, readerSpec{Class: "failing-reader", FailAt: k + 1, Chunk: 3, ErrWithData: true}, -1, 0, both)
+			}
+		}
+	}
 	// every composition of chunk sizes inside a window
 	win := 9
 	winDumps := []int{2}
@@ -627,9 +708,10 @@ func main() {
 		sizes = append(sizes, len(d.Bytes))
 	}
 	r.Set("dump_sizes", sizes)
-	r.Rule(fmt.Sprintf("9 real dumps (0..4 objects, no write-cache / all cached / part flushed), each restored with ignoreErrors off and on through: full reads; final bytes with EOF; EVERY single split point; max chunk 1..16; plus every subset of split points inside %d-byte windows (stream head, offset 6, record boundary, tail) of %d dump(s); plus every byte of every record of the 3-object dump xor {01,80,ff} (size fields included). Non-trivial = the reader really delivered a short read / EOF with data, or a byte was corrupted", win, len(winDumps)))
+	r.Rule(fmt.Sprintf("9 real dumps (0..4 objects, no write-cache / all cached / part flushed), each restored with ignoreErrors off and on through: full reads; final bytes with EOF; EVERY single split point; max chunk 1..16; plus every subset of split points inside %d-byte windows (stream head, offset 6, record boundary, tail) of %d dump(s); plus a FAILING reader: for every dump and every k in [0,len] exactly k bytes are delivered and then a non-EOF error (also delivered together with the last bytes; also chunked 1 and 3 around every record boundary and the tail) - Restore must return an error or have stored the whole dump, ignoreErrors off and on; plus every byte of every record of the 3-object dump xor {01,80,ff} (size fields included). Non-trivial = the reader really delivered a short read / EOF with data, or a byte was corrupted", win, len(winDumps)))
 	r.Exhaustive(complete)
-	r.Assume("a corrupted record is 'detectable' iff the SDK cannot decode it as an object; payload/ID flips that still decode are stored as decoded and only the untouched records are judged",
+	r.Assume("a failing reader is not a corrupted record: ignoreErrors (documented as 'corrupted objects are just skipped') gives no licence to return nil after a reader error with objects missing",
+		"a corrupted record is 'detectable' iff the SDK cannot decode it as an object; payload/ID flips that still decode are stored as decoded and only the untouched records are judged",
 		"after a damaged size field the format cannot resynchronise: only 'no false claim of full success' and 'records before the damaged one intact' are demanded there",
 		"restore.go's binary.LittleEndian.Uint32 is routed through props/c46/vbinary: same value, but a decoded record size above 64 KiB (the dumps are < 1 KiB) stops the Restore call with a recoverable panic instead of a multi-GiB allocation; such a stop on an intact dump is judged like any other failed restore")
 	finish()
